@@ -197,6 +197,7 @@ func Entries() []Entry {
 				ct = ct.Elem()
 			}
 			en.Conf = NodeOf(ct, map[reflect.Type]bool{})
+			attachRelations(e.PluginType, e.Name, ct, en.Conf)
 			en.NewDefault = e.NewDefaultConfig
 			en.Default = reflect.ValueOf(e.NewDefaultConfig()).Elem()
 		}
@@ -251,4 +252,188 @@ func ctorConstraint(t reflect.Type, f reflect.StructField) string {
 		return "ctor-headers"
 	}
 	return ""
+}
+
+// ctorRelations: documented RELATIONS between options of one component that its constructor enforces (round 7).
+// They depend on the registered name, not only on the Go config type: the five http ammo providers share
+// components/providers/http/config.Config, the registered constructor fixes the decoder (import.go) and
+// NewProvider / uriReadSeekCloser / fileReadSeekCloser check (docs/eng/providers.md, docs/eng/http-providers.md):
+//
+//	`uris` and `file` exclude each other; one of them is needed; `uris` only with the uri decoder
+//	(type uri, or type http with decoder: uri); type http: the decoder is one of the four names.
+//
+// Pseudo tag `ctor-rel=PRE->POST` on the option the relation is documented at; conditions:
+// true | false | set:Key | is:Key:text | not(C) | and(C;C) | or(C;C).
+func ctorRelations(iface, name string, ct reflect.Type) map[string][]string {
+	if iface != "core.Provider" || ct.PkgPath() != "github.com/yandex/pandora/components/providers/http/config" || ct.Name() != "Config" {
+		return nil
+	}
+	rel := map[string][]string{
+		"Uris": {"ctor-rel=set:Uris->not(set:File)", "ctor-rel=not(set:Uris)->set:File"},
+	}
+	switch name {
+	case "uri":
+	case "http":
+		rel["Uris"] = append(rel["Uris"], "ctor-rel=set:Uris->is:Decoder:uri")
+		rel["Decoder"] = []string{"ctor-rel=true->or(or(is:Decoder:uri;is:Decoder:uripost);or(is:Decoder:raw;is:Decoder:jsonline))"}
+	default:
+		rel["Uris"] = append(rel["Uris"], "ctor-rel=set:Uris->false")
+	}
+	return rel
+}
+
+func attachRelations(pt reflect.Type, name string, ct reflect.Type, conf *Node) {
+	if conf == nil || conf.Kind != "struct" {
+		return
+	}
+	rel := ctorRelations(ifaceName(pt), name, ct)
+	for i := range conf.Fields {
+		for _, t := range rel[conf.Fields[i].GoName] {
+			if conf.Fields[i].Validate != "" {
+				conf.Fields[i].Validate += ","
+			}
+			conf.Fields[i].Validate += t
+		}
+	}
+}
+
+// Cond is a parsed condition of a ctor-rel pseudo tag.
+type Cond struct {
+	Op   string // true false set is not and or
+	Key  string
+	Text string
+	A, B *Cond
+}
+
+// Rel is one relation: when Pre holds of the filled config, Post has to hold.
+type Rel struct{ Pre, Post *Cond }
+
+// ParseCond parses the condition grammar of ctor-rel.
+func ParseCond(s string) (*Cond, error) {
+	c, rest, err := parseCond(s)
+	if err != nil {
+		return nil, err
+	}
+	if rest != "" {
+		return nil, fmt.Errorf("ctor-rel condition %q: trailing %q", s, rest)
+	}
+	return c, nil
+}
+
+func parseCond(s string) (*Cond, string, error) {
+	ident := func(s string) (string, string) {
+		i := 0
+		for i < len(s) && s[i] != ';' && s[i] != ')' && s[i] != ':' && s[i] != '(' {
+			i++
+		}
+		return s[:i], s[i:]
+	}
+	switch {
+	case strings.HasPrefix(s, "true"):
+		return &Cond{Op: "true"}, s[4:], nil
+	case strings.HasPrefix(s, "false"):
+		return &Cond{Op: "false"}, s[5:], nil
+	case strings.HasPrefix(s, "set:"):
+		k, rest := ident(s[4:])
+		return &Cond{Op: "set", Key: k}, rest, nil
+	case strings.HasPrefix(s, "is:"):
+		k, rest := ident(s[3:])
+		if !strings.HasPrefix(rest, ":") {
+			return nil, "", fmt.Errorf("ctor-rel: is:Key:text expected in %q", s)
+		}
+		t, rest2 := ident(rest[1:])
+		return &Cond{Op: "is", Key: k, Text: t}, rest2, nil
+	case strings.HasPrefix(s, "not("):
+		a, rest, err := parseCond(s[4:])
+		if err != nil || !strings.HasPrefix(rest, ")") {
+			return nil, "", fmt.Errorf("ctor-rel: bad not(...) in %q", s)
+		}
+		return &Cond{Op: "not", A: a}, rest[1:], nil
+	case strings.HasPrefix(s, "and("), strings.HasPrefix(s, "or("):
+		op := "and"
+		if s[0] == 'o' {
+			op = "or"
+		}
+		a, rest, err := parseCond(s[len(op)+1:])
+		if err != nil || !strings.HasPrefix(rest, ";") {
+			return nil, "", fmt.Errorf("ctor-rel: bad %s(...) in %q", op, s)
+		}
+		b, rest2, err := parseCond(rest[1:])
+		if err != nil || !strings.HasPrefix(rest2, ")") {
+			return nil, "", fmt.Errorf("ctor-rel: bad %s(...) in %q", op, s)
+		}
+		return &Cond{Op: op, A: a, B: b}, rest2[1:], nil
+	}
+	return nil, "", fmt.Errorf("ctor-rel: bad condition %q", s)
+}
+
+// ParseRel parses the parameter of a ctor-rel pseudo tag.
+func ParseRel(param string) (Rel, error) {
+	i := strings.Index(param, "->")
+	if i < 0 {
+		return Rel{}, fmt.Errorf("ctor-rel parameter %q: PRE->POST expected", param)
+	}
+	pre, err := ParseCond(param[:i])
+	if err != nil {
+		return Rel{}, err
+	}
+	post, err := ParseCond(param[i+2:])
+	if err != nil {
+		return Rel{}, err
+	}
+	return Rel{pre, post}, nil
+}
+
+// Rels lists the relations carried by the fields of a config struct node.
+func Rels(conf *Node) []Rel {
+	var out []Rel
+	if conf == nil {
+		return nil
+	}
+	for _, f := range conf.Fields {
+		for _, t := range strings.Split(f.Validate, ",") {
+			if strings.HasPrefix(t, "ctor-rel=") {
+				if r, err := ParseRel(t[len("ctor-rel="):]); err == nil {
+					out = append(out, r)
+				}
+			}
+		}
+	}
+	return out
+}
+
+// Keys collects the option keys a condition mentions, with the texts `is:` compares them with.
+func (c *Cond) Keys(out map[string][]string) {
+	if c == nil {
+		return
+	}
+	switch c.Op {
+	case "set":
+		if _, ok := out[c.Key]; !ok {
+			out[c.Key] = nil
+		}
+	case "is":
+		out[c.Key] = append(out[c.Key], c.Text)
+	}
+	c.A.Keys(out)
+	c.B.Keys(out)
+}
+
+// Coq renders the condition as a term of type ocond.
+func (c *Cond) Coq() string {
+	switch c.Op {
+	case "true":
+		return "OTrue"
+	case "false":
+		return "OFalse"
+	case "set":
+		return fmt.Sprintf("(OSet %s)", CoqStr(c.Key))
+	case "is":
+		return fmt.Sprintf("(OIs %s %s)", CoqStr(c.Key), CoqStr(c.Text))
+	case "not":
+		return fmt.Sprintf("(ONot %s)", c.A.Coq())
+	case "and":
+		return fmt.Sprintf("(OAnd %s %s)", c.A.Coq(), c.B.Coq())
+	}
+	return fmt.Sprintf("(OOr %s %s)", c.A.Coq(), c.B.Coq())
 }
